@@ -191,3 +191,24 @@ pub fn rand_entries(r: &mut Rng) -> Vec<(u16, Vec<Vec<u8>>)> {
         (k, vs)
     }).collect()
 }
+
+/// Generators that call the implementation themselves (to measure a length) journal the equivalent case first.
+/// When VERIF_JOURNAL names a file, the input about to be executed is written there first, so that
+/// a run the implementation ends by aborting the process (heap corruption, a failed precondition
+/// check of an unsafe call, stack exhaustion) still names the input it died on.
+pub fn journal(suite: u32, input: &[u64]) {
+    use std::io::Write;
+    use std::io::{Seek, SeekFrom};
+    use std::sync::{Mutex, OnceLock};
+    static J: OnceLock<Option<Mutex<std::fs::File>>> = OnceLock::new();
+    let j = J.get_or_init(|| std::env::var_os("VERIF_JOURNAL").and_then(|p| std::fs::File::create(p).ok()).map(Mutex::new));
+    if let Some(m) = j {
+        let mut f = m.lock().unwrap();
+        let mut s = format!("{} |", suite);
+        for x in input { s.push(' '); s.push_str(&x.to_string()); }
+        let _ = f.seek(SeekFrom::Start(0));
+        let _ = f.write_all(s.as_bytes());
+        let _ = f.set_len(s.len() as u64);
+    }
+}
+
